@@ -213,7 +213,7 @@ def run(ctx: Any, prog: Program) -> None:
     ctx.check('C12.W4', ok, core, tries[0] if tries else mt, 'the name search may only continue on FileExistsError (any other error must propagate)', func='AtomicWriter.make_tempfile', text='retry only on FileExistsError')
     first_if = [n for n in mt.body if isinstance(n, ast.If)]
     ok = bool(first_if) and 'self.temp is not None' in ast.unparse(first_if[0].test) and any(has for has in ['close' in ast.unparse(first_if[0]) and 'unlink' in ast.unparse(first_if[0])])
-    ctx.check('C12.W4', ok, core, first_if[0] if first_if else mt, 're-entering the writer must close and unlink the previous temp file', func='AtomicWriter.make_tempfile', text='re-entry cleanup')
+    ctx.shape('C12.W4', ok, core, first_if[0] if first_if else mt, 're-entering the writer must close and unlink the previous temp file', func='AtomicWriter.make_tempfile', text='re-entry cleanup')
     # ---- W5 ----------------------------------------------------------------------------------------------
     save = bsp.func('BSP.save')
     withs = [n for n in walk_no_nested(save) if isinstance(n, ast.With) and any(isinstance(i.context_expr, ast.Call) and dotted(i.context_expr.func) == 'AtomicWriter' for i in n.items)]
